@@ -156,6 +156,14 @@ def points(tier: str) -> List[dict]:
     for v, b, r, k, l in ((3, 3, 2, 2, 1), (4, 6, 3, 2, 1), (4, 4, 3, 3, 2), (5, 5, 4, 4, 3), (3, 6, 4, 2, 2)):
         P.append({"spec": {"model": "bibd", "v": v, "b": b, "r": r, "k": k, "l": l, "sym": False, "brute": True}, "count": "brute"})
         P.append({"spec": {"model": "bibd", "v": v, "b": b, "r": r, "k": k, "l": l, "sym": True, "brute": True}, "sat": "brute"})
+    # a grid of tiny parameter sets, admissible (v*r == b*k, l*(v-1) == r*(k-1)) or not: the count is whatever the
+    # definition gives by brute force, 0 for most of them
+    grid = [(v, b, r, k, l) for v in (2, 3) for b in (2, 3, 4) for r in range(1, b + 1) for k in range(1, v + 1) for l in range(0, r + 1)]
+    gg = lcg(23)
+    picked = sorted(set(grid[next(gg) % len(grid)] for _ in range(14 if not th else 60)))
+    for v, b, r, k, l in picked:
+        P.append({"spec": {"model": "bibd", "v": v, "b": b, "r": r, "k": k, "l": l, "sym": False, "brute": True}, "count": "brute"})
+        P.append({"spec": {"model": "bibd", "v": v, "b": b, "r": r, "k": k, "l": l, "sym": True, "brute": True}, "sat": "brute"})
     for v, b, r, k, l in ((6, 10, 5, 3, 2), (7, 7, 3, 3, 1)):
         P.append({"spec": {"model": "bibd", "v": v, "b": b, "r": r, "k": k, "l": l, "sym": True}, "sat": True})
     for n in (3, 4, 5, 6, 7, 8, 9):
@@ -192,6 +200,26 @@ def points(tier: str) -> List[dict]:
         P.append({"spec": {"model": "tsp", "costs": c, "op": "opt", "brute": True, "cfg": {}}, "optimum": "brute", "fix_heur": True})
     for n in (3, 4, 5, 6):
         P.append({"spec": {"model": "circuit", "n": n, "brute": True}, "count": "brute"})
+    # smallest sizes and degenerate parameters of every model
+    for n in (1, 2, 3):
+        P.append({"spec": {"model": "queens", "n": n}, "count": QUEENS[n]})
+        P.append({"spec": {"model": "magic_sequence", "n": n, "brute": True}, "count": "brute"})
+        P.append({"spec": {"model": "quasigroup", "n": n, "sym": False, "brute": True}, "count": "brute"}) if n > 1 else None
+    for n in (1, 2):
+        P.append({"spec": {"model": "latin", "n": n}, "count": LATIN[n]})
+        P.append({"spec": {"model": "latin_rc", "n": n}, "count": LATIN[n]})
+        P.append({"spec": {"model": "schur", "n": n, "sym": False, "brute": True}, "count": "brute"})
+        P.append({"spec": {"model": "schur", "n": n, "sym": True, "brute": True}, "sat": "brute"})
+    P.append({"spec": {"model": "magic_square", "n": 2, "sym": False}, "count": 0})
+    P.append({"spec": {"model": "golomb", "n": 3, "sym": True, "op": "opt"}, "optimum": 3})
+    P.append({"spec": {"model": "golomb", "n": 3, "sym": False, "op": "opt"}, "optimum": 3})
+    P.append({"spec": {"model": "circuit", "n": 2, "brute": True}, "count": "brute"})
+    for i in range(4 if not th else 12):
+        n = 3 + next(g) % 4
+        ws = [next(g) % 8 for _ in range(n)]  # null weights and volumes are legal
+        vs = [next(g) % 8 for _ in range(n)]
+        P.append({"spec": {"model": "knapsack", "weights": ws, "volumes": vs, "capacity": next(g) % (sum(vs) + 2), "op": "opt", "brute": True}, "optimum": "brute"})
+    P = [p for p in P if p is not None]
     P.append({"spec": {"model": "sudoku", "givens": SUDOKU_1}, "count": 1})
     P.append({"spec": {"model": "sudoku", "givens": SUDOKU_2}, "count": 1})
     P.append({"spec": {"model": "sudoku", "givens": SUDOKU_3}, "count": 1})
